@@ -32,15 +32,22 @@ RULE = ("cases = interception plans (0-8 entries per family built by truncating 
         "server; distinct = distinct (method, canonical plan)")
 MANIFEST = dict(
     level_text=("Machine-checked Lean 4 theorems over a model of subnet_weight, Python's stable sort and the four rule "
-                "generators: for every well-formed plan and every packet the first-match (iptables/nft) or last-match "
-                "(pf) walk over the generated rules diverts exactly when the most specific matching entry is an "
-                "include (proved by induction over sorted lists, no enumeration); DNS and owner rules characterised. "
-                "Tied to the code on every run by a token-by-token differential run of the real setup_firewall of each "
-                "method and by an oracle that parses the real argv / pf text and decides every cell of the arrangement."),
+                "generators. Proved for every list of well-formed entries and every packet (induction over sorted "
+                "lists, no enumeration): the first match of the descending sort / last match of the ascending sort is an "
+                "include iff the most specific matching entry (narrowest port range, longest prefix, exclusion wins "
+                "ties) is an include, and key order = that precedence. Full verdict theorems (DNS, TCP, owner, other "
+                "family, local/forwarded) for nat and for an nft table; for pf the last-match filter step (partial); "
+                "for tproxy the rule-level match lemmas (partial). Tied to the code on every run by a token-by-token "
+                "differential run of the real setup_firewall of nat/nft/tproxy/pf(FreeBSD, OpenBSD, Darwin) and by an "
+                "oracle that parses the real argv / pf text and decides every cell of the arrangement."),
     level_note=("Trusted: Lean kernel; the packet-walk environment model (netfilter first match, RETURN, non-terminating "
                 "MARK, REDIRECT/TPROXY; pf last-match filter + rdr, unvalidated: no pf in the sandbox); policy routing for "
-                "tproxy as documented; address text -> number by inet_pton. nft/tproxy/pf ignore user/group (F13, C15)."),
-    technique="Lean 4 proof (sorted first-match lemma, key order = spec order) + differential correspondence + per-cell oracle on real rules",
+                "tproxy as documented; address text -> number by inet_pton. tproxy chain walk and pf rdr step are "
+                "covered by correspondence + oracle only. nft/tproxy/pf ignore user/group (the client refuses "
+                "--user/--group for them, C15). Known finding: tproxy renders the DNS rules with /32 for IPv6 name "
+                "servers too (C03_tproxy_dns_mask32_v6_false); recorded, not repaired, because the repository's own "
+                "test pins /32; the model follows the code as it is."),
+    technique="Lean 4 proof (sorted first/last-match lemma, key order = spec order) + differential correspondence + per-cell oracle on real rules",
 )
 DRIVER_TARGETS = ['SshuttleModel.Code.FwRules', 'SshuttleModel.Env.PacketWalk', 'SshuttleModel.Spec.MostSpecific']
 ASSUMPTIONS = [
@@ -768,7 +775,7 @@ def rand_plan(rng, method, size_hint=None):
         elif r < 0.4:
             user, group = 'bob', 'wheel'
     elif r < 0.1:
-        group = 'staff'          # accepted by the client for every method (F13); these methods ignore it
+        group = 'staff'          # these methods ignore it (the client refuses the option for them, C15)
     ports = rng.sample(range(1024, 65536), 4)
     if rng.random() < 0.2:
         ports = [12300, 12299, 12298, 12297]
@@ -861,10 +868,29 @@ def evaluate_plan(method, plan, k):
         return ('rule rejected: %s' % e, spec_verdict(method, plan, k))
 
 
+KNOWN_MASK32_KEY = 'C03:tproxy:ipv6-ns-mask32:dns-divert-of-non-nameserver'
+
+
+def is_ipv6_ns_mask32_class(method, plan, k, got, want):
+    """tproxy / tproxy-udp, IPv6 packet, UDP port 53, sent to the DNS listener although its destination is
+    NOT a configured name server but lies inside the /32 of a configured IPv6 name server."""
+    fam6, dst, dport, proto, loc, dl, uid, gid, sock = k
+    if method not in ('tproxy', 'tproxy-udp') or not fam6 or proto != 'udp' or dport != 53:
+        return False
+    if got != 'd%d' % plan.dns6 or want == got:
+        return False
+    ns6 = [addr_num(f, ip) for f, ip in plan.nslist if f == AF_INET6]
+    if dst in ns6:
+        return False
+    return any((a >> 96) == (dst >> 96) for a in ns6)
+
+
 def classify(method, plan, k, got, want):
     fam6, dst, dport, proto, loc, dl, uid, gid, sock = k
     if got.startswith('rule rejected') or got.startswith('setup failed'):
         return 'C03:%s:rules-not-loadable' % method
+    if is_ipv6_ns_mask32_class(method, plan, k, got, want):
+        return KNOWN_MASK32_KEY
     dnsport = plan.dns6 if fam6 else plan.dns4
     if got == 'd%d' % dnsport and want != got:
         return 'C03:%s:dns-divert-of-non-nameserver' % method
@@ -909,33 +935,43 @@ def run_plan(ctx, method, plan, log, budget, lean_cells):
     if not wf_plan(plan):
         return
     ks = cells(plan, method, rng, budget)
-    bad = None
-    nbad = 0
+    bad = {}          # class key -> (packet, got, want), locally generated packets preferred
+    nbad = {}
     verdicts = {}
     for k in ks:
         got = verdict_real(method, loaded, plan, k)
         want = spec_verdict(method, plan, k)
         verdicts[k] = (got, want)
         if got != want:
-            nbad += 1
-            if bad is None or (bad[0][4] == 0 and k[4] == 1):
-                bad = (k, got, want)
+            key = classify(method, plan, k, got, want)
+            nbad[key] = nbad.get(key, 0) + 1
+            if key not in bad or (bad[key][0][4] == 0 and k[4] == 1):
+                bad[key] = (k, got, want)
     ctx.count(len(ks))
     ctx.hist('cells', len(ks))
     ctx.hist('cells-diverted', sum(1 for g, w in verdicts.values() if w != 'u'))
-    if bad:
-        k, got, want = bad
+    reported = ctx.__dict__.setdefault('_c03_reported', set())
+    for key in sorted(bad):
+        k, got, want = bad[key]
+        ctx.hist('violating-plans:' + key)
+        if key in reported:
+            continue              # same class already has its minimised replay in this run
+        reported.add(key)
 
-        def want_bad(tp, kk):
+        def want_bad(tp, kk, key=key):
             g, w = evaluate_plan(method, tp, kk)
-            return g != w
+            return g != w and classify(method, tp, kk, g, w) == key
         small = minimise(method, plan, k, want_bad)
         g2, w2 = evaluate_plan(method, small, k)
-        ctx.violation(classify(method, small, k, g2, w2),
-                      case=dict(method=method, plan=small.to_json(), packet=list(k)),
+        ctx.violation(key,
+                      case=dict(method=method, plan=small.to_json(), packet=list(k),
+                                packet_text='%s %s port %d to %s, %s' % (
+                                    'IPv6' if k[0] else 'IPv4', k[3], k[2],
+                                    addr_text(AF_INET6 if k[0] else AF_INET, k[1]),
+                                    'locally generated' if k[4] else 'forwarded')),
                       expected='%s (property evaluated on the plan)' % w2,
                       observed='%s (walk over the rules the real setup_firewall emitted); %d of %d cells of the '
-                               'original plan disagree' % (g2, nbad, len(ks)))
+                               'original plan disagree in this class' % (g2, nbad[key], len(ks)))
     # a sample of cells goes through the Lean walk and the Lean spec as well
     if lean_cells and ks:
         interesting = [k for k in ks if verdicts[k][1] != 'u']
@@ -992,7 +1028,7 @@ def gen_and_run(ctx):
             ctx.mark(canon_plan(method, plan), nontrivial(plan))
             if i < 1 and method in ('nat', 'pf-openbsd'):
                 ctx.sample(dict(method=method, plan=plan.to_json(), real_code_output=lg.outs[:2]))
-        if ctx.violations and len(ctx.violations) > 12:
+        if len([v for v in ctx.violations if v['key'] != KNOWN_MASK32_KEY]) > 12:
             break
     # 4. thorough: every plan with <= 2 entries over a small lattice
     if ctx.thorough:
@@ -1100,4 +1136,5 @@ def replay(ctx, rep):
         return False, 'rules installed'
     k = tuple(case['packet'])
     got, want = evaluate_plan(method, plan, k)
-    return got != want, 'packet %s: real rules -> %s, property -> %s' % (pkt_field(k), got, want)
+    return got != want, 'packet %s (%s): real rules -> %s, property -> %s' % (
+        pkt_field(k), case.get('packet_text', ''), got, want)
